@@ -116,6 +116,10 @@ def one_case(ctx, m, scripts, style, prefix_len, tsk, seed_rng):
             replay["detail"] = bad
             ctx.violation(bad, replay)
         if ctx.km is not None:
+            wf = ctx.km.call("py_wf", *L.model_args(scripts, m["threaded"])) == b"1"
+            ctx.count("wf_config_true" if wf else "wf_config_false(unthreaded machine)")
+            if wf != bool(m["threaded"]):
+                ctx.tie_broken("hypothesis wf_config evaluates to %r on a %s scenario" % (wf, "threaded" if m["threaded"] else "unthreaded"), replay)
             mod = L.model_trace(ctx.km, scripts, m["threaded"], sched)
             diff = L.compare(res, mod)
             if diff:
@@ -191,6 +195,8 @@ def exhaustive(ctx, m, tsk):
                     replay["finding_key"] = classify(bad)
                     replay["detail"] = bad
                     ctx.violation(bad, replay)
+                    if len(ctx.violations) >= 8:
+                        return
                 if diff:
                     replay["detail"] = diff
                     ctx.tie_broken("correspondence (enumerated schedule) real vs model: " + diff, replay)
@@ -241,6 +247,8 @@ def run(ctx):
             style = rng.choice(["uniform", "sticky", "starve_worker", "main_first"])
             if not one_case(ctx, m, scripts, style, rng.randint(0, 80), tsk, rng):
                 break
+            if len(ctx.violations) >= 8:      # enough concrete failing inputs: stop searching
+                return
     # 3 all schedules with few preemptions on small scenarios
     exhaustive(ctx, m0, tsk)
 
